@@ -49,8 +49,8 @@ package gzip
 
 //@ func (*Writer).Write
 //@   requires gzBase(z)
-//@   assert call Write 2 [C06 header-bytes] z.buf[0] == 31 && z.buf[1] == 139 && z.buf[2] == 8 && (z.Extra != nil) == (z.buf[3] & 4 != 0) && (z.Name != "") == (z.buf[3] & 8 != 0) && (z.Comment != "") == (z.buf[3] & 16 != 0) && z.buf[3] & 227 == 0 && (z.level == 9 ==> z.buf[8] == 2) && (z.level == 1 ==> z.buf[8] == 4) && (z.level != 9 && z.level != 1 ==> z.buf[8] == 0) && z.buf[9] == z.OS
-//@   assert call Write 2 [C06 header-mtime] (lastAfter ==> le32(z.buf[:], 4) == uint32(lastTimeUnix)) && (!lastAfter ==> le32(z.buf[:], 4) == 0)
+//@   assert call Write 1 [C06 header-bytes] z.buf[0] == 31 && z.buf[1] == 139 && z.buf[2] == 8 && (z.Extra != nil) == (z.buf[3] & 4 != 0) && (z.Name != "") == (z.buf[3] & 8 != 0) && (z.Comment != "") == (z.buf[3] & 16 != 0) && z.buf[3] & 227 == 0 && (z.level == 9 ==> z.buf[8] == 2) && (z.level == 1 ==> z.buf[8] == 4) && (z.level != 9 && z.level != 1 ==> z.buf[8] == 0) && z.buf[9] == z.OS
+//@   assert call Write 1 [C06 header-mtime] (lastAfter ==> le32(z.buf[:], 4) == uint32(lastTimeUnix)) && (!lastAfter ==> le32(z.buf[:], 4) == 0)
 //@   ensures[C06 running-trailer] result1 == nil ==> z.size == old(z.size) + uint32(len(p)) && z.digest == lastCrc
 //@   modifies *z, **z.compressor, **z.w, extWrites, lastCrc, lastWriteErr, lastAfter, lastTimeUnix, unixCalls, lastUnixSec, lastStdResetDictNil, lastByteErr
 //@   ensures[C16 inv] gzBase(z) && same(z.closed) && (old(gzOK(z)) ==> gzOK(z))
@@ -102,6 +102,7 @@ package gzip
 //@   ensures@6[C07 size-checked] size == old(z.size) + uint32(n) || size == uint32(n)
 //@   ensures@7[C07 C08 next-member] z.multistream && (err == io.EOF ==> rfN == 0 && rfErr == io.EOF)
 //@   ensures@3[C15 src-err] err != io.EOF
+//@   assert call ReadFull 1 [C11 no-data-held] typeis(z.decompressor, *github.com/intel/fastgo/compress/flate.decompressor) ==> n == 0
 //@   loop 1 invariant grBase(z) && z.err == nil && 0 <= n && n <= len(p) && (z.size == old(z.size) || z.size == 0)
 
 //@ func (*Reader).readString
